@@ -11,6 +11,7 @@ import (
 
 	"verif/internal/keys"
 	"verif/internal/mon"
+	"verif/internal/refder"
 	"verif/internal/refp7"
 	"verif/internal/refpe"
 )
@@ -185,6 +186,21 @@ func checkC02(r *mon.Run) {
 			c := t.encap.Kids[1].Kids[0]
 			if len(c.Kids) < 2 || len(c.Kids[1].Kids) < 2 {
 				continue
+			}
+			// the genuine content kept and a copy carrying the tampered image's digest put next to it
+			for _, front := range []bool{true, false} {
+				tb, err := loadP7Tree(b.sig)
+				if err != nil {
+					break
+				}
+				fc := tb.clone().encap.Kids[1].Kids[0]
+				fc.Kids[1].Kids[1].Prim = nd
+				if front {
+					tb.encap.Kids[1].Kids = append([]*refder.Tree{fc}, tb.encap.Kids[1].Kids...)
+				} else {
+					tb.encap.Kids[1].Kids = append(tb.encap.Kids[1].Kids, fc)
+				}
+				c02Judge(r, b.name, "tamper+forged-content-beside-genuine", regionKind(im, p, len(b.out)), embedSigs(tampered, tb.root.Encode()), certs, fmt.Sprintf("byte %d changed, second Spc element with the new digest inserted in [0], in front=%v", p, front))
 			}
 			c.Kids[1].Kids[1].Prim = nd
 			forged := embedSigs(tampered, t.root.Encode())
